@@ -41,8 +41,42 @@ def _run(nt):
     return res, sc, script, L, P, K
 
 
+def _with_repopulation():
+    """Real main loop with a forced repopulation; the hyper-parameters carried by the state at
+    every relabel must be the caller's."""
+    import fast_ticc
+    from fast_ticc import cluster_label_assignment as cla
+    seen = []
+    real = cla.predict_cluster_labels
+    calls = {'n': 0}
+
+    def spy(model, data):
+        seen.append((model.arguments.sparsity_weight, model.arguments.label_switching_cost,
+                     model.arguments.min_meaningful_covariance))
+        out = real(model, data)
+        if calls['n'] == 0:
+            out.point_labels = [0] * len(out.point_labels)          # collapse: next round repopulates
+        calls['n'] += 1
+        return out
+    cla.predict_cluster_labels = spy
+    rng = np.random.default_rng(2)
+    data = np.concatenate([rng.standard_normal((30, 1)) + 6.0 * k for k in range(2)])
+    try:
+        fast_ticc.ticc_labels(data, window_size=1, num_clusters=2, iteration_limit=3, min_cluster_size=4,
+                              sparsity_weight=0.11, label_switching_cost=7.0, min_meaningful_covariance=0.001)
+    except Exception as exc:
+        return {'reproduced': True, 'signature': 'run-raises', 'observed': {'raised': repr(exc)}}
+    finally:
+        cla.predict_cluster_labels = real
+    bad = [s for s in seen if s != (0.11, 7.0, 0.001)]
+    return {'reproduced': bool(bad), 'signature': 'hyperparameters-change-during-run' if bad else None,
+            'observed': {'seen_at_relabel': [list(map(float, s)) for s in seen]}}
+
+
 def replay(w):
     nt = w['notes']
+    if nt.get('kind') == 'with_repopulation':
+        return _with_repopulation()
     if nt.get('bad'):
         try:
             _run(dict(nt, P=2, K=2, round_labels=[[0, 0]]))
